@@ -278,6 +278,21 @@ def stepCur (sch : Schema) (ft : Ft) (d : Ty) : PStep → Option (Ft × Ty)
       pure (ft', et')
     | _ => none
 
+/-- which child map a step lives in, by the node's type tag -/
+def kindOK (ft : Ft) : PStep → Bool
+  | .field _ => ft == .struct
+  | .idx _ => ft == .list || ft == .intMap
+  | .key _ => ft == .strMap
+  | _ => true
+
+def Kids.keys : Kids → List Key
+  | .nil => []
+  | .cons k _ r => k :: r.keys
+
+/-- a child map keyed by integers / by strings, without duplicate keys (what a Go map is) -/
+def Kids.wfI (ks : Kids) : Prop := ks.keys.Nodup ∧ ∀ k ∈ ks.keys, ∃ n, k = Key.i n
+def Kids.wfS (ks : Kids) : Prop := ks.keys.Nodup ∧ ∀ k ∈ ks.keys, ∃ b, k = Key.s b
+
 def Mask.NoKids (m : Mask) : Prop :=
   m.fd = .nil ∧ m.ints = .nil ∧ m.strs = .nil ∧ m.fdA = false ∧ m.intA = false ∧ m.strA = false
 
@@ -298,6 +313,8 @@ inductive Rep (sch : Schema) (black : Bool) : Ty → Mask → List APath → Pro
   | spec {d m P} : m.typ ≠ .invalid → m.isBlack = black → P ≠ [] →
       (∀ p ∈ P, ∃ k t, p = k :: t ∧ k.isStar = false) →
       m.isAll = false → m.hasChild = true → (m.fdA = true ∨ m.fd = .nil) →
+      (∀ k, k.isStar = false → tailsOf k P ≠ [] → kindOK m.typ k = true) →
+      (m.fd.wfI ∧ m.ints.wfI ∧ m.strs.wfS) →
       (∀ k, k.isStar = false → tailsOf k P = [] → m.kid k = .none) →
       (∀ k, k.isStar = false → tailsOf k P ≠ [] →
          ∃ c cu, m.kid k = .some c ∧ stepCur sch m.typ d k = some cu ∧ c.typ = cu.1) →
@@ -308,5 +325,58 @@ inductive Rep (sch : Schema) (black : Bool) : Ty → Mask → List APath → Pro
 /-- struct field ids are unique (the thrift semantic checker enforces it; `fieldById` is first-match) -/
 def Schema.uniqueIds (s : Schema) : Bool :=
   s.structs.all fun st => st.2.all fun f => (fieldById st.2 f.id) == some f
+
+
+/-! ## witnesses and decidable hypotheses used by Props/C14.lean -/
+
+/-- witness schema `struct S {-1: string neg, 1: string a, 2: list<string> l, 3: map<string,S> m, 4: S s}` -/
+def wS : Schema :=
+  { structs := [([83], [⟨-1, [110, 101, 103], .named [115, 116, 114, 105, 110, 103]⟩,
+                        ⟨1, [97], .named [115, 116, 114, 105, 110, 103]⟩,
+                        ⟨2, [108], .list (.named [115, 116, 114, 105, 110, 103])⟩,
+                        ⟨3, [109], .map (.named [115, 116, 114, 105, 110, 103]) (.named [83])⟩,
+                        ⟨4, [115], .named [83]⟩])],
+    typedefs := [], enums := [] }
+def rS : Ty := .named [83]
+
+def Res.get? {α} : Res α → Option α
+  | .ok a => some a
+  | _ => none
+def Res.panicSite {α} : Res α → Option Site
+  | .panic s => some s
+  | _ => none
+def Res.isCrash {α} : Res α → Bool
+  | .crash => true
+  | _ => false
+def Res.isErr {α} : Res α → Bool
+  | .err _ => true
+  | _ => false
+
+
+/-- all suffixes of a byte string -/
+def suffixes : Bytes → List Bytes
+  | [] => [[]]
+  | a :: l => (a :: l) :: suffixes l
+
+/-- decidable hypotheses of `no_panic_partial` -/
+def idsNonneg (sch : Schema) : Bool := sch.structs.all fun st => st.2.all fun f => decide (0 ≤ f.id)
+
+/-- no suffix of the path makes the tokenizer panic (unbalanced quote, backslash at the end of a quoted
+string, integer beyond int64) and no integer literal exceeds int32 -/
+def tokSafe (cfg : Sites) (p : Bytes) : Bool :=
+  (suffixes p).all fun r =>
+    match next cfg r with
+    | .panic _ => false
+    | .ok (.litInt n, _) => !cfg.int32 || decide (n ≤ 2147483647)
+    | _ => true
+
+
+
+/-- every token read at a non-empty suffix consumes input (decidable form of `Progress`) -/
+def progressB (cfg : Sites) (p : Bytes) : Bool :=
+  (suffixes p).all fun r =>
+    r.isEmpty || match next cfg r with
+      | .ok (_, r') => decide (r'.length < r.length)
+      | _ => true
 
 end FieldMask
